@@ -115,11 +115,22 @@ def run_case(case, ctx):
     lo = 0.3 if case['fun'] in ('sqrt', 'recip', 'mobius') else -3.0
     x = rng.uniform(lo, 3.0, size=size)
     x = np.where(np.abs(x) < 0.2, 0.7, x).reshape(shape)
+    lay = ['C', 'F', 'swapped', 'C'][case['seed'] % 4] if len(shape) >= 2 else 'C'
+
+    def laid_out(a):
+        # the same logical array in another memory layout
+        if lay == 'F':
+            return np.asfortranarray(a)
+        if lay == 'swapped':
+            return np.ascontiguousarray(np.swapaxes(a, 0, -1)).swapaxes(0, -1)
+        return a.copy()
+    if lay != 'C':
+        ctx.count('x_memory_layout:' + lay)
     rec = Recorder(f)
     d = nd.Derivative(rec, method=method, n=n, order=order, full_output=True)
     try:
         with np.errstate(all='ignore'):
-            out, info = d(x.copy() if shape else float(x), *args, **kwds)
+            out, info = d(laid_out(x) if shape else float(x), *args, **kwds)
     except Exception as exc:
         ctx.reject('raised', observed=repr(exc)[:200], method=method)
         return
@@ -164,7 +175,7 @@ def run_case(case, ctx):
         y.flat[pidx] = xp
         try:
             with np.errstate(all='ignore'):
-                out2, info2 = d(y, *args, **kwds)
+                out2, info2 = d(laid_out(y), *args, **kwds)
         except Exception as exc:
             ctx.reject('raised_after_replacing_neighbours', observed=repr(exc)[:200], method=method,
                        neighbours=y.ravel())
